@@ -42,12 +42,12 @@ first component and resolves the rest against it — reported as `foo/bar.c`; re
 is reported as `bar.c`. -/
 theorem C05_rewrite_source_name_witness :
     rewritePaths { sourceDir := some [47, 120, 47, 102, 111, 111] }
-        ⟨[], [[[120]], [[120], [102, 111, 111]]], [[120]]⟩
+        { files := [], dirs := [[[120]], [[120], [102, 111, 111]]], cwd := [[120]] }
         [([102, 111, 111, 47, 102, 111, 111, 47, 98, 97, 114, 46, 99], {})]
       = .ok [⟨[47, 120, 47, 102, 111, 111, 47, 102, 111, 111, 47, 98, 97, 114, 46, 99],
               [102, 111, 111, 47, 98, 97, 114, 46, 99], {}⟩] ∧
     rewritePaths { sourceDir := some [47, 120, 47, 102, 111, 111] }
-        ⟨[], [[[120]], [[120], [102, 111, 111]]], [[120]]⟩
+        { files := [], dirs := [[[120]], [[120], [102, 111, 111]]], cwd := [[120]] }
         [([102, 111, 111, 47, 98, 97, 114, 46, 99], {})]
       = .ok [⟨[47, 120, 47, 102, 111, 111, 47, 98, 97, 114, 46, 99], [98, 97, 114, 46, 99], {}⟩] := by
   decide
